@@ -286,6 +286,30 @@ def r145(ctx):
                 ctx.ob("R14.5", good, f"{b.name}/{fld}/value", f"`{b.name}` assigns {fld} = {txt}",
                        where=f"{b.file}:{s.line}", sample=f"{fld} = {txt}")
 
+    # edge semantics on the disconnect side, for each of the two heights on its own: whenever the block's undo turned
+    # "swept" into "not swept", the recorded height is cleared - whatever the other flag says (our output can be un-swept
+    # while HTLC outputs of the same close were never swept, so closing_was_swept is false)
+    from engine import atoms
+    rv0 = fnview(ctx, rem, policy=False)
+    rvn = rv0.named()
+    for fld, was, is_ in (("closing_swept_height", "closing_was_swept", "closing_is_swept"),
+                          ("our_output_swept_height", "our_output_was_swept", "our_output_is_swept")):
+        clr = set()
+        for bi in rvn.live_blocks():
+            for s_ in rem.stmts(bi):
+                if s_.kind == "a" and any(isinstance(pr, tuple) and pr[0] == "f" and pr[2] == fld for pr in s_.place.proj):
+                    val = render(rv0.expr(s_.rv.ops[0])) if s_.rv.ops else ""
+                    if "None" in str(s_.rv.a) or "None" in val:
+                        clr.add(bi)
+        cut = atoms.scenario_cut(rvn, [atoms.parse_atom(was), atoms.parse_atom("!" + is_)])
+        rets = [bi for bi in rvn.live_blocks() if rem.term(bi).kind == "ret"]
+        live = rvn.reach(0, cut_edges=cut, cut_nodes=clr)
+        ctx.ob("R14.5", bool(cut) and bool(clr) and not any(r in live for r in rets), f"{rem.name}/{fld}/unswept-clears",
+               f"a disconnected block that turns `{was}` into not `{is_}` can leave {fld} set (the clearing depends on something "
+               "else as well): after the reorg the monitor reports a sweep that is not on the best chain, and connect-then-"
+               "disconnect does not restore the previous view", where=f"{rem.file}:{rem.line}",
+               sample=f"{was} && !{is_} => {fld} = None on every path")
+
 
 def r146(ctx):
     ctx.rule("R14.6", "change derivation is independent of the spent status it toggles: the PushListener callbacks (which "
